@@ -320,8 +320,13 @@ M('R20-ambiguity-after-constraints', 'R20',
   'dro.Model.ambiguity')
 M('R20-class-level-cache', 'R20',
   [('lp.py', "class Affine:\n    \"\"\"\n    The Affine class creates an array of affine expressions.\n    \"\"\"\n\n    __array_priority__ = 100\n",
-    "class Affine:\n    \"\"\"\n    The Affine class creates an array of affine expressions.\n    \"\"\"\n\n    __array_priority__ = 100\n    _cache = {}\n")],
+    "class Affine:\n    \"\"\"\n    The Affine class creates an array of affine expressions.\n    \"\"\"\n\n    __array_priority__ = 100\n    _cache = {}\n"),
+   ('lp.py', "        self.model = model\n        self.linear = linear\n        self.const = const\n        self.shape = const.shape\n",
+    "        self.model = model\n        self._cache[const.shape] = linear\n        self.linear = linear\n        self.const = const\n        self.shape = const.shape\n")],
   'class attribute _cache')
+T('R20-class-level-table', 'R20',
+  [('lp.py', "class Affine:\n    \"\"\"\n    The Affine class creates an array of affine expressions.\n    \"\"\"\n\n    __array_priority__ = 100\n",
+    "class Affine:\n    \"\"\"\n    The Affine class creates an array of affine expressions.\n    \"\"\"\n\n    __array_priority__ = 100\n    _kinds = {'C': 'continuous', 'B': 'binary'}\n")])
 M('R20-exptset-no-check', 'R20',
   [('lp.py', "        for arg in args:\n            if arg.model is not self.ambset.model.exp_model:\n                raise ValueError('Constraints are not defined for ' +\n                                 'expectation sets.')\n\n", "")],
   'lp.Scen.exptset')
